@@ -4,6 +4,7 @@ package dart
 
 import (
 	"fmt"
+	"go/constant"
 	"strings"
 
 	an "github.com/benoitkugler/gomacro/analysis"
@@ -111,7 +112,11 @@ func codeForEnum(typ *an.Enum) gen.Declaration {
 		}
 		names = append(names, lowerFirst(vName))
 		comments = append(comments, fmt.Sprintf("%q", v.Comment))
-		values = append(values, v.Const.Val().String())
+		value := v.Const.Val().String()
+		if v.Const.Val().Kind() == constant.String {
+			value = v.Const.Val().ExactString() // String() shortens long strings
+		}
+		values = append(values, value)
 		labels = append(labels, fmt.Sprintf("case %s.%s: return %q;", name, lowerFirst(vName), v.Comment))
 	}
 
